@@ -2,19 +2,72 @@
 """Writes MANIFEST.json from the table below (kept in one place so it stays valid)."""
 import json
 
-CLAIMED = {
-    "C18": dict(
-        text="Kernel-checked theorems over the real-number instance of the hand-written Gallina model of "
-             "Strategies::truncate (validity for every threshold incl. NaN/inf via arbitrary predicates, exact support and "
-             "proportional rescaling, nothing-above branch, small-threshold identity, idempotence), tied to /repo on every run "
-             "by a differential correspondence (model at binary64 vs the real API) plus an independent property monitor on the "
-             "implementation's outputs.",
-        note="Assumes: model = code only as far as the correspondence shows (differential test, tolerance 1e-9); theorems are "
-             "over R, rounding is validated not proved; axioms: the standard library's real-number axioms, classic, "
-             "functional extensionality (as printed by Print Assumptions, allowlisted by name).",
-        technique="Coq proof (induction over rows) + vm_compute model/implementation correspondence",
-        ref="7 (C18)"),
+import os
+COMMON_NOTE = ("Assumes: the hand-written Gallina model equals the code only as far as the differential correspondence of this check "
+               "shows (model executed at binary64 by vm_compute inside coqc vs the real API, tolerance stated in the evidence); "
+               "theorems are over the real-number instance (rounding, overflow and NaN propagation are validated by the float "
+               "instance and the monitors, not proved); axioms as printed by Print Assumptions and allowlisted by name "
+               "(ClassicalDedekindReals.sig_forall_dec, sig_not_dec, Classical_Prop.classic, functional_extensionality_dep). ")
+TECH = "Coq proof over a Gallina model + vm_compute model/implementation correspondence + property monitor"
+SPEC = {
+    "C01": ("Kernel-checked theorems that the model evaluator (expected, best-response DP) equals the expected terminal payoff and the "
+            "best-response value under WF + perfect recall; correspondence of get_info with the model at binary64; independent "
+            "exhaustive best-response oracle as monitor.", "7 (C01)", ""),
+    "C02": ("CFR theory on the solver model (regret-matching potential, bound dominates true regret) + correspondence of "
+            "solve(Full, vanilla) with the model + monitor bound >= true regret (get_info and exhaustive best response).", "7 (C02)", ""),
+    "C03": ("Kernel-checked regret-matching potential / per-infoset rate on the model + correspondence + monitors of both envelopes "
+            "on adversarial games. Clause 2 for cfr_plus/dcfr/dcfr_prune is decided by the monitor only (partial).", "7 (C03)",
+            "PARTIAL: the true-regret rate for the three discounted presets is not proved. "),
+    "C04": ("Partial: pathwise theorems shared with C03/C05 on the sampled traversals (invariants, bounds) + correspondence under "
+            "pinned draws + statistical monitor under seeded weight-honouring sampling.", "7 (C04)",
+            "PARTIAL: the probabilistic concentration step and the empirical sentence are monitored, not proved. "),
+    "C05": ("Kernel-checked invariants of the solver model for every method, oracle, parameter set, budget and stop predicate "
+            "(every strategy row is a distribution, cum_strat >= 0, returned profile valid, bounds non-negative and None iff no "
+            "iteration ran) + correspondence and no-panic/validity monitor over methods x params x budgets x thresholds x thread "
+            "counts incl. the usize::MAX/3 boundary.", "7 (C05)",
+            "Known finding: binary64 overflow at |payoff| ~ 1e308 (listed). OS thread creation and rayon are runtime, not model. "),
+    "C06": ("Correspondence implementation(k threads) vs implementation(1 thread) vs model on frontier-adversarial trees with "
+            "seeded yield points; theorems: parallel decomposition equals the sequential traversal for every schedule of atomic "
+            "increments (Properties/C06.v).", "7 (C06)", "Atomics, Mutex and rayon are trusted. "),
+    "C07": ("As C06 for the sampled methods under pinned draws (hook), plus at most one draw per cell and pass and no try_lock "
+            "panic.", "7 (C07)", "Atomics, Mutex and rayon are trusted. "),
+    "C08": ("The Coq model is the executable specification; 29 kernel-checked theorems show its update rules mean what the "
+            "documentation says (discount factors t^a/(t^a+1), averaging weights t^g, regret matching and its four fallbacks, order "
+            "of updates, presets); trajectory-level correspondence for every method under pinned draws decides agreement.", "7 (C08)",
+            "Agreement itself is differential (tolerance 1e-8, ill-conditioned cases detected by perturbation and not judged). "),
+    "C09": ("Kernel-checked theorem that a thresholded run equals the unthresholded run of budget t* (first iteration whose bound "
+            "satisfies the test), for every method/oracle/params/predicate; non-positive and NaN thresholds never stop; "
+            "correspondence with thresholds at, just above and just below every bound of the trajectory.", "7 (C09)", ""),
+    "C10": ("Kernel-checked categorical-sampler specification (index k iff the variate lies in the k-th cumulative interval) and "
+            "solver frame properties; observer-mode correspondence: recorded live draws replayed through the model reproduce the "
+            "run and the presented weights; z-test of production sampler frequencies.", "7 (C10)",
+            "rand_distr::WeightedAliasIndex / thread_rng trusted. "),
+    "C11": ("Kernel-checked soundness/blame/completeness of the from_root model against a declarative contract + correspondence on "
+            "valid and invalid trees + independent Python contract oracle.", "7 (C11)", ""),
+    "C12": ("Kernel-checked invariance theorems on the model (rescaling, renaming, scaling, shifting, swapping) + correspondence of "
+            "original vs transformed presentations through the implementation.", "7 (C12)", ""),
+    "C13": ("Kernel-checked theorems on the iterator state machines (exact lengths at every prefix, items, round trip) + "
+            "correspondence incl. len() before every next().", "7 (C13)", ""),
+    "C14": ("Kernel-checked agreement of the hash-based and scan-based import models for every input + result/ok-iff theorems + "
+            "correspondence with an independent oracle.", "7 (C14)", ""),
+    "C15": ("Model of the CLI pipeline from the parsed AST (Gambit conversion, constant-sum shift, output assembly) with theorems on "
+            "utilities/regrets + end-to-end correspondence on the shipped binary with generated .efg/.json files.", "7 (C15)",
+            "Text parsing (serde_json, gambit-parser), clap and I/O are dependencies, not modelled. "),
+    "C16": ("Theorems on the clip decision and option mapping of the CLI model + end-to-end correspondence of the binary with the "
+            "library and the model over the option space.", "7 (C16)", "clap / I/O not modelled. "),
+    "C17": ("Semantic rejection categories on the AST-level model + corruption stream on the shipped binary.", "7 (C17)",
+            "PARTIAL: malformed bytes are rejected by the dependencies' parsers; that part is a test with an independent oracle. "),
+    "C18": ("Kernel-checked theorems over the real-number instance of the model of Strategies::truncate (validity for every "
+            "threshold incl. NaN/inf via arbitrary predicates, exact support and proportional rescaling, nothing-above branch, "
+            "small-threshold identity, idempotence) + correspondence + independent monitor.", "7 (C18)", ""),
+    "C19": ("Kernel-checked theorems on the distance model (zero, symmetry, positivity, range for p >= 1, attained bound, no "
+            "division by zero, panic iff p <= 0; range refuted for p < 1) + correspondence + monitor.", "7 (C19)",
+            "Known finding: range fails for p < 1 (listed). "),
 }
+CLAIMED = {}
+for pid, (text, ref, extra) in SPEC.items():
+    if os.path.exists("/verif/coq/Properties/%s.v" % pid) and os.path.exists("/verif/vplib/props/%s.py" % pid.lower()):
+        CLAIMED[pid] = dict(text=text, note=extra + COMMON_NOTE, technique=TECH, ref=ref)
 ALL = ["C%02d" % i for i in range(1, 20)]
 
 checks = []
